@@ -802,6 +802,7 @@ static void dump_client(int k)
 	else if (k == 2) CLIDUMP(2);
 }
 
+static int dump_indata = 0;
 static void dump_users(void)
 {
 	unsigned i;
@@ -890,9 +891,17 @@ static void dump_users(void)
 			u->outpacket.seqno, u->outpacket.fragment, u->outpacket.len,
 			u->outpacket.offset, u->outpacket.sentlen, u->outfragresent);
 		fprintf(out, "\"enc\":\"%s\",\"downenc\":%d,\"fragsize\":%d,\"conn\":%d,\"lazy\":%d,"
-			"\"outq\":%d,\"digest\":%u}\n",
+			"\"outq\":%d,",
 			u->active ? encname(u->encoder) : "none", u->active ? u->downenc : 0,
-			u->fragsize, (int) u->conn, u->lazy, u->outpacketq_filled, dg);
+			u->fragsize, (int) u->conn, u->lazy, u->outpacketq_filled);
+		if (dump_indata) {
+			/* the upstream reassembly buffer itself (what the server extracted from the data queries so far) */
+			fprintf(out, "\"indata\":\"");
+			if (u->active && u->inpacket.len > 0 && u->inpacket.len <= (int) sizeof(u->inpacket.data))
+				emithex((unsigned char *) u->inpacket.data, u->inpacket.len);
+			fprintf(out, "\",");
+		}
+		fprintf(out, "\"digest\":%u}\n", dg);
 	}
 }
 
@@ -944,6 +953,8 @@ int main(int argc, char **argv)
 			free(b);
 		} else if (!strcmp(tok[0], "unenv") && nt == 2) {
 			unsetenv(tok[1]);
+		} else if (!strcmp(tok[0], "dumpin") && nt == 2) {
+			dump_indata = atoi(tok[1]);
 		} else if (!strcmp(tok[0], "hostprofile") && nt == 2) {
 			host_profile = atoi(tok[1]);
 		} else if (!strcmp(tok[0], "residue") && nt >= 2) {
